@@ -92,6 +92,48 @@ func (a *A) need(ok bool, rule, what string) bool {
 	return ok
 }
 
+// include runs the rules of another property on the same program and keeps the instances of the named rules
+// (all of them when keep is nil for a rule id; otherwise those whose key keep accepts). A property uses it for
+// rules decided elsewhere that are necessary conditions of its own statement. Anchor failures (rule "<prop>-R0")
+// of the included property are kept as well: an unresolved anchor leaves the included rules undecided.
+// Included rules always run at the quick tier.
+func (a *A) include(prop string, rules map[string]func(key string) bool) {
+	def := props[prop]
+	if def == nil {
+		a.undecided(a.Prop+"-R0", "include@"+prop, "-", "included property is not registered")
+		return
+	}
+	b := newA(a.W, prop, "quick")
+	def.run(b)
+	n := 0
+	for _, o := range b.Obs {
+		keep, named := rules[o.Rule]
+		if named && (o.Status == "holds" || o.Status == "violated") {
+			n++ // vacuity is judged before the key filter: a violated sibling instance is not "nothing decided"
+		}
+		switch {
+		case named && (keep == nil || keep(o.Key) || (o.Status == "undecided" && strings.HasPrefix(o.Key, "count@"))):
+			a.Obs = append(a.Obs, o)
+		case o.Rule == prop+"-R0" && o.Status != "holds" && o.Status != "info":
+			a.Obs = append(a.Obs, o)
+		}
+	}
+	for f := range b.Funcs {
+		a.Funcs[f] = true
+	}
+	a.Calls += b.Calls
+	a.Evals += b.Evals
+	if n == 0 {
+		a.undecided(a.Prop+"-R0", "include@"+prop, "-", "no instance of the included rules of %s was decided", prop)
+	}
+	var ids []string
+	for r := range rules {
+		ids = append(ids, r)
+	}
+	sort.Strings(ids)
+	a.Notes = append(a.Notes, fmt.Sprintf("includes %s (necessary conditions decided by the rules of %s, quick tier)", strings.Join(ids, ", "), prop))
+}
+
 // atLeast is the vacuity guard: a rule must have decided at least n instances
 // whose key starts with prefix.
 func (a *A) atLeast(rule, prefix string, n int) {
@@ -207,6 +249,11 @@ func (a *A) finish(verifDir string, meta propMeta, t0 time.Time, writeEvidence b
 	}
 	for _, n := range a.Notes {
 		fmt.Printf("   note: %s\n", n)
+	}
+	if listObs {
+		for _, o := range a.Obs {
+			fmt.Printf("   . %s %s [%s] %s %s\n", o.Rule, o.Key, o.Status, o.Pos, o.Detail)
+		}
 	}
 	for _, k := range known {
 		fmt.Printf("KNOWN-FINDING: %s\n", k)
